@@ -88,7 +88,11 @@ def _make(ctx, spec, nvdim=None, dtype=None):
     unit = gen.pick(rng, ig.UNITS)
     tol = float(gen.pick(rng, [1e-12, 1e-12, 1e-10, 1e-9]))
     mesh = df.Mesh(region=spec.region(tolerance_factor=tol), n=list(n))
-    f = gen.via_history(None, df.Field(mesh, nvdim=nvdim, value=arr, vdims=labels, unit=unit,
+    nv_arg = nvdim
+    if rng.random() < 0.2:
+        # the component count as a numpy integer (what a field read from an HDF5 file holds)
+        nv_arg = gen.pick(rng, [np.int64, np.int32])(nvdim)
+    f = gen.via_history(None, df.Field(mesh, nvdim=nv_arg, value=arr, vdims=labels, unit=unit,
                                        dtype=arr.dtype))
     return f, arr, labels, unit, tol
 
